@@ -4,6 +4,10 @@ Read from the module object (data):   the five truth-value constants, `inverted_
 Tabulated by running the real code:   the `or` / `and` branches of `infer_condition_value` on all 5 × 5 pairs of
                                       operand values, `fixed_comparison` on the three orderings × six operators,
                                       the special names (PY2, PY3, MYPY, TYPE_CHECKING, always_true, always_false).
+Which consider_sys_version_info is in the tree (with or without the open-ended-slice rule of
+harness/c12/proposed_fix_F4.diff) is determined by running it on `sys.version_info == (3, 12)` for target 3.12
+(`openSliceFix`); a grid of probes around that rule (open-ended and closed slices × 6 operators × equal / unequal
+literal × both operand orders) is emitted with the values the real function returns.
 Props/C12Reach proves (by `decide` over exactly these regenerated tables) that the hand-written model functions
 `invert`, `reverseOp`, `orTable`, `andTable`, `opHolds`/`ofBool`, `nameValue` agree with every entry.
 """
@@ -52,6 +56,39 @@ def tables() -> dict:
             "fixed": fixed, "names": names, "leaves_ok": leaves_ok}
 
 
+def _version_value(src: str, target=(3, 12)) -> int:
+    r = importlib.import_module("mypy.reachability")
+    from mypy.errors import Errors
+    from mypy.fastparse import parse
+    from mypy.options import Options
+    o = Options()
+    tree = parse(f"if {src}: pass\n", "p.py", "p", Errors(o), o)
+    return r.consider_sys_version_info(tree.defs[0].expr[0], target)
+
+
+def open_slice_fix() -> bool:
+    """Does the tree treat an open-ended slice of sys.version_info as longer than an equal tuple?"""
+    r = importlib.import_module("mypy.reachability")
+    return _version_value("sys.version_info == (3, 12)") == r.ALWAYS_FALSE
+
+
+def probes() -> list[tuple[str, str, str, str, int]]:
+    """(source, lean left operand, lean op, lean right operand, real value) for target 3.12"""
+    forms = [("sys.version_info", ".versionInfo", 0), ("sys.version_info[0:]", ".slice (some (.int 0)) none none", 0),
+             ("sys.version_info[1:]", ".slice (some (.int 1)) none none", 1), ("sys.version_info[::1]", ".slice none none (some 1)", 0),
+             ("sys.version_info[:2]", ".slice none (some (.int 2)) none", 0), ("sys.version_info[1:2]", ".slice (some (.int 1)) (some (.int 2)) none", 1)]
+    out = []
+    for src, lean, lo in forms:
+        for minor in (12, 11):
+            items = (3, minor)[lo:]
+            lit = "(" + ", ".join(map(str, items)) + ("," if len(items) == 1 else "") + ")"
+            lean_lit = ".tuple [" + ", ".join(f".int {x}" for x in items) + "]"
+            for sym, lop in OPS.items():
+                out.append((f"{src} {sym} {lit}", lean, "." + lop[3:], lean_lit, _version_value(f"{src} {sym} {lit}")))
+                out.append((f"{lit} {sym} {src}", lean_lit, "." + lop[3:], lean, _version_value(f"{lit} {sym} {src}")))
+    return out
+
+
 def main() -> int:
     t = tables()
     tv = t["tv"]
@@ -80,6 +117,15 @@ def main() -> int:
     L.append("")
     L.append("/-- infer_condition_value on a bare name, with always_true = [ATN], always_false = [AFN] -/")
     L.append("def nameEntries : List (String × TV) := [" + ", ".join(f'("{n}", {T(v)})' for n, v in t["names"].items()) + "]")
+    L.append("")
+    L.append("/-- does consider_sys_version_info have the open-ended-slice rule (proposed_fix_F4)? -/")
+    L.append(f"def openSliceFix : Bool := {str(open_slice_fix()).lower()}")
+    L.append("")
+    L.append("/-- consider_sys_version_info for target 3.12 on probes around that rule -/")
+    L.append("def openSliceProbes : List (Operand × Op × Operand × TV) := [")
+    pr = probes()
+    L += ["  (%s, %s, %s, %s)%s  -- %s" % (a, op, b, T(v), "," if i < len(pr) - 1 else "", src) for i, (src, a, op, b, v) in enumerate(pr)]
+    L.append("]")
     L += ["", "end Reach.Gen", ""]
     text = "\n".join(L)
     os.makedirs(os.path.dirname(OUT), exist_ok=True)
